@@ -56,4 +56,20 @@ CLAIMS = {
         "technique": "monomorphic call-graph SCC analysis (rustc instance resolution incl. drop glue and shims) + cdr-taint "
                      "dataflow with edge-dominance guards",
     },
+    "C17": {
+        "text": "Claimed for every input, value and option set: unchecked bytes->str/String/char conversions (and transmutes "
+                "to those types) occur only at the reviewed sites, and for each site the bytes that can reach it are bounded "
+                "structurally - the printer emits only ASCII constants, str::as_bytes of a &str, all-ASCII statics and "
+                "range-guarded ASCII casts; the scanners feeding StrRead's unchecked closures cut the input only at ASCII "
+                "bytes (class extraction over all 256 byte values), write only whole UTF-8 to the scratch buffer, start "
+                "from a cleared or validated scratch, and no function that pushes a raw byte is reachable from them in the "
+                "monomorphic call graph; decode_utf8_sequence returns Ok only behind str::from_utf8; a StrRead can only be "
+                "built from a &str (MIR check + compile_fail witnesses in thorough). Thorough repeats this for the build "
+                "without fast-float-parsing.",
+        "note": _TB + "std's from_utf8 / encode_utf8 / String invariants, itoa and ryu emitting ASCII, core::fmt emitting "
+                "only &str fragments.",
+        "technique": "who-may-call audit of unchecked conversions, def-use classification of every byte source, byte-class "
+                     "extraction by conditional constant propagation, dominator checks, call-graph reachability, "
+                     "compile_fail witnesses",
+    },
 }
